@@ -175,7 +175,7 @@ def _int_of(sub, w, signed):
     if len(ps) == 1 and ps[0][0] == 'fld' and ps[0][2] == w:
         t = ps[0][1]
         if ps[0][3] == signed:
-            return SxInt.wrap(t)
+            return SxInt.wrap(t, m=None if signed else (1 << (8 * w)) - 1)
         half = 1 << (8 * w - 1)
         full = 1 << (8 * w)
         if signed:      # stored unsigned, read signed
@@ -190,7 +190,7 @@ def _int_of(sub, w, signed):
         half = 1 << (8 * w - 1)
         full = 1 << (8 * w)
         tot = z3.If(tot >= half, tot - full, tot)
-    return SxInt.wrap(tot)
+    return SxInt.wrap(tot, m=None if signed else (1 << (8 * w)) - 1)
 
 
 def unpack(fmt, data):
